@@ -351,6 +351,7 @@ structure PullAcc where
   dst : Site
   acts : List Act
   modified : Bool
+  orig : Site              -- the destination when the ingestion started
 
 def pullETombs (src : Site) (c : Cell) (a : PullAcc) : PullAcc :=
   let ts := src.etombs.filter fun t => t.room = c.room && c.ent = 0 && t.dday = c.day
@@ -362,7 +363,7 @@ def pullETombs (src : Site) (c : Cell) (a : PullAcc) : PullAcc :=
       etombs := a.dst.etombs ++ fresh }
     { dst := dst,
       acts := a.acts ++ [.write (fresh.map fun _ => c) (ts.map fun _ => c)],
-      modified := true }
+      modified := true, orig := a.orig }
 
 def pullTombs (src : Site) (c : Cell) (a : PullAcc) : PullAcc :=
   let ts := src.tombs.filter fun t => t.room = c.room && t.ent = c.ent && t.dday = c.day
@@ -375,7 +376,7 @@ def pullTombs (src : Site) (c : Cell) (a : PullAcc) : PullAcc :=
     { dst := dst,
       acts := a.acts ++ [.write (fresh.map fun _ => c)
         (ts.flatMap fun t => [c, { room := t.room, ent := t.ent, day := t.mday }])],
-      modified := true }
+      modified := true, orig := a.orig }
 
 def pullRows (src : Site) (c : Cell) (a : PullAcc) : PullAcc :=
   let cand := src.rows.filter fun r => r.room = c.room && r.ent = c.ent && r.day = c.day
@@ -396,9 +397,12 @@ def pullRows (src : Site) (c : Cell) (a : PullAcc) : PullAcc :=
       src.refs.filter fun e => e.src = r.n && e.ctick ≥ oldVer
     let refs' := (a.dst.refs.filter fun x => !(edges.any fun e => e.src = x.src && e.dst = x.dst)) ++ edges
     let rows' := fetched.foldl (fun acc r => setRow r acc) a.dst.rows
+    -- a version the destination already held when the ingestion started (removed by a tombstone of the
+    -- same ingestion and fetched again) is not new content
+    let gained := fetched.filter fun r => !(a.orig.rows.any fun o => o.n = r.n && o.ver = r.ver)
     { dst := { a.dst with rows := rows', refs := refs' },
-      acts := a.acts ++ [.write (fetched.map cellOf) marks],
-      modified := true }
+      acts := a.acts ++ [.write (gained.map cellOf) marks],
+      modified := true, orig := a.orig }
 
 def pullEntry (src : Site) (a : PullAcc) (c : Cell) : PullAcc :=
   pullRows src c (pullTombs src c (pullETombs src c a))
@@ -411,12 +415,26 @@ def pullLoads (dst : Site) (r : Room) (rd : RoomDef) : Bool :=
 
 def pullStart (dst : Site) (r : Room) (rd : RoomDef) : PullAcc :=
   if pullLoads dst r rd then
-    { dst := { dst with defs := setDef rd dst.defs }, acts := [.roomEv rd], modified := false }
-  else { dst := dst, acts := [], modified := false }
+    { dst := { dst with defs := setDef rd dst.defs }, acts := [.roomEv rd], modified := false, orig := dst }
+  else { dst := dst, acts := [], modified := false, orig := dst }
+
+/-- cells whose stored content (row versions, tombstones) is larger after than before -/
+def diffCells (before after : Site) : List Cell :=
+  ((after.rows.filter fun r => !(before.rows.any fun o => o.n = r.n && o.ver = r.ver)).map cellOf) ++
+  ((after.tombs.filter fun t => !(before.tombs.contains t)).map fun t => { room := t.room, ent := t.ent, day := t.dday }) ++
+  ((after.etombs.filter fun t => !(before.etombs.contains t)).map fun t => { room := t.room, ent := 0, day := t.dday })
+
+/-- what a change touched, restricted to what is still there at the end of the ingestion (a row fetched
+    and then removed again by a tombstone of the same ingestion leaves nothing) -/
+def restrictTouched (cells : List Cell) : List Act → List Act
+  | [] => []
+  | .write t m :: rest => .write (t.filter fun c => cells.contains c) m :: restrictTouched cells rest
+  | a :: rest => a :: restrictTouched cells rest
 
 /-- `synchronise_room`: the recompute is requested iff something was touched -/
 def pullFinish (a : PullAcc) : Site × List Act :=
-  (a.dst, if a.modified then a.acts ++ [.pass] else a.acts)
+  (a.dst, if a.modified then restrictTouched (diffCells a.orig a.dst) a.acts ++ [.pass]
+          else restrictTouched (diffCells a.orig a.dst) a.acts)
 
 def pullOp (src dst : Site) (r : Room) : Option (Site × List Act) :=
   match findDef r src.defs with
